@@ -36,6 +36,17 @@ pub fn check(v: &View, vd: &mut Verdict) {
         if strategy == RStrat::NonRestartable && incarnations > 1 {
             vd.fail("C07/nonrestartable_restarted", format!("actor {a}: non-restartable spawn went through {incarnations} incarnations"));
         }
+        // a restart request is never a reason to terminate: ignored (non-restartable) or followed by a new
+        // incarnation; an actor that ends although nothing else could have ended it, with restart requests
+        // accepted before, was killed by one of them
+        if let Some((s, end)) = v.actors[a].task_end {
+            if s < v.external_cause(a) && s < v.phase(Phase::Teardown) && reqs.iter().any(|(_, ret)| *ret < s) {
+                vd.fail(
+                    format!("C07/ended_by_restart/{strategy:?}"),
+                    format!("actor {a} ({strategy:?}): ended at {s} with {end:?} although nothing but restart requests ({} accepted) had been addressed to it", reqs.len()),
+                );
+            }
+        }
         // (c) callback / value discipline per processed restart
         for k in 1..incarnations {
             let s = starts[k];
